@@ -269,6 +269,10 @@ func (s *DiscoveryServer) initConnection(node *core.Node, con *Connection, ident
 	// context between initializeProxy and addCon, we would not get any pushes triggered for the new
 	// push context, leading the proxy to have a stale state until the next push.
 	s.addCon(con.ID(), con)
+	// A push context published between the read above and addCon has already run its push round
+	// without this connection; read again so that it is not missed. Anything published after addCon
+	// is queued for the connection, and pushes are not processed before MarkInitialized.
+	proxy.LastPushContext = s.globalPushContext()
 	verifGate("init:after-addcon")
 	// Register that initialization is complete. This triggers to calls that it is safe to access the
 	// proxy
